@@ -36,8 +36,39 @@ func (o regFreeOp) String() string {
 	return fmt.Sprintf("RegisterTpl(%d, %q, v%d)", o.id, o.key, o.version)
 }
 
+// regFreeCase: one history as sent to the Lean registry model (driver request `db`, DriverC04.lean) together with
+// what the real registry answered to every lookup of it.
+type regFreeCase struct {
+	line   string
+	goToks []string
+	hist   []string
+}
+
+var regFreeBatch []*regFreeCase
+
 func regFreeRun(r *Run, prefix string, trees []*dyntpl.Tree, ids []int, keys []string, ops []regFreeOp, what string) bool {
 	dyntpl.VerifResetRegistry()
+	rc := &regFreeCase{}
+	var lb strings.Builder
+	lb.WriteString("db")
+	for v := range trees {
+		fmt.Fprintf(&lb, " P:%d", v)
+		rc.goToks = append(rc.goToks, fmt.Sprint(v))
+	}
+	tokOf := func(out string) string {
+		var v int
+		if _, err := fmt.Sscanf(out, "[v%d T]", &v); err == nil {
+			return fmt.Sprint(v)
+		}
+		if strings.Contains(out, "not found") {
+			return "nf"
+		}
+		return "?" + out
+	}
+	defer func() {
+		rc.line = lb.String()
+		regFreeBatch = append(regFreeBatch, rc)
+	}()
 	text := func(v int) string { return fmt.Sprintf("[v%d T]", v) }
 	strictID, strictKey := map[int]int{}, map[string]int{}
 	var slots []int
@@ -81,12 +112,25 @@ func regFreeRun(r *Run, prefix string, trees []*dyntpl.Tree, ids []int, keys []s
 		switch o.kind {
 		case 'i':
 			dyntpl.RegisterTplID(o.id, trees[o.version])
+			fmt.Fprintf(&lb, " I:%d:%d", o.id, o.version)
 		case 'k':
 			dyntpl.RegisterTplKey(o.key, trees[o.version])
+			fmt.Fprintf(&lb, " K:%s:%d", khex(o.key), o.version)
 		default:
 			dyntpl.RegisterTpl(o.id, o.key, trees[o.version])
+			fmt.Fprintf(&lb, " R:%d:%s:%d", o.id, khex(o.key), o.version)
 		}
 		hist = append(hist, o.String())
+		rc.hist = hist
+		// every name of the universe (registered or not) against the Lean model of the registry
+		for _, id := range ids {
+			fmt.Fprintf(&lb, " i:%d", id)
+			rc.goToks = append(rc.goToks, tokOf(render(true, id, "")))
+		}
+		for _, key := range keys {
+			fmt.Fprintf(&lb, " k:%s", khex(key))
+			rc.goToks = append(rc.goToks, tokOf(render(false, 0, key)))
+		}
 		for _, id := range ids {
 			v, ok := strictID[id]
 			if !ok {
@@ -165,6 +209,7 @@ func regFreePairings(r *Run, prefix, what string, enumLen, nRandom int) {
 	}
 	if !rec(nil) {
 		dyntpl.VerifResetRegistry()
+		regFreeFlush(r)
 		return
 	}
 	// random longer ones over three keys and three IDs; the tree of an earlier step is registered again now and then
@@ -186,4 +231,41 @@ func regFreePairings(r *Run, prefix, what string, enumLen, nRandom int) {
 		}
 	}
 	dyntpl.VerifResetRegistry()
+	regFreeFlush(r)
+}
+
+// regFreeFlush: the same histories on the Lean model `Db` (the object of Props/C04 and Props/C04F): every lookup of
+// every name after every registration must agree. A difference on a lookup the property decides has been reported
+// above; any other difference breaks the correspondence Db.set / Db.getKey / Db.getID ≙ db.go.
+func regFreeFlush(r *Run) {
+	batch := regFreeBatch
+	regFreeBatch = nil
+	if len(batch) == 0 {
+		return
+	}
+	lines := make([]string, len(batch))
+	for i, c := range batch {
+		lines[i] = c.line
+	}
+	ans := r.Drive(lines)
+	for i, c := range batch {
+		fs := strings.Fields(ans[i])
+		if len(fs) < 1 || fs[0] != "ok" {
+			r.Internal("driver could not answer the registry history: " + c.line + " -> " + ans[i])
+			return
+		}
+		var model []string
+		for _, t := range fs[1:] {
+			if t == "|" {
+				break
+			}
+			model = append(model, t)
+		}
+		r.Dist["free_pairing_model_lookups"] += len(model)
+		if strings.Join(model, " ") != strings.Join(c.goToks, " ") {
+			r.TieBreak("Db.set / Db.getKey / Db.getID ≙ db.go (free pairing of IDs and keys)", map[string]any{"history": c.hist, "request": c.line,
+				"note": "tokens: 12 Parse results, then after every registration the lookups of every ID and every key of the universe (version found | nf)"},
+				strings.Join(c.goToks, " "), strings.Join(model, " "))
+		}
+	}
 }
